@@ -361,7 +361,7 @@ Proof.
     + destruct (fa_fill ffuel r1) as [r2 fr] eqn:E2. pose proof (fa_fill_fits _ _ _ _ E2 Hf1) as Hf2.
       destruct (fa_fill_run false _ _ _ _ E2) as (_ & _ & Hst2 & _).
       destruct fr as [n|k|];
-        [|inversion H; subst; splits; try discriminate; [repeat constructor; apply Hsite|exact Hf2|reflexivity]
+        [|inversion H; subst; splits; try discriminate; [repeat constructor; apply Hsite|unfold BufFits; fa_simpl; cbn [length]; lia|reflexivity]
          |inversion H; subst; splits; auto; try discriminate; repeat constructor; apply Hsite].
       destruct (fa_search r2) as [r3 sr] eqn:E3. pose proof (fa_search_fits _ _ _ E3 Hf2) as Hf3.
       destruct (fa_search_facts _ _ _ E3) as (_ & _ & _ & _ & _ & _ & Hinc & _).
@@ -379,7 +379,7 @@ Proof.
     destruct g as [|e|s]; [|exfalso; apply (Hne e); reflexivity|inversion H; subst; splits; auto; discriminate].
     destruct (fa_fill ffuel r1) as [r2 fr] eqn:E2. pose proof (fa_fill_fits _ _ _ _ E2 Hf1) as Hf2.
     destruct fr as [n|k|];
-      [|inversion H; subst; splits; try discriminate; [constructor|exact Hf2|reflexivity]
+      [|inversion H; subst; splits; try discriminate; [constructor|unfold BufFits; fa_simpl; cbn [length]; lia|reflexivity]
        |inversion H; subst; splits; auto; discriminate].
     destruct (fa_search r2) as [r3 sr] eqn:E3. pose proof (fa_search_fits _ _ _ E3 Hf2) as Hf3.
     destruct (fa_search_facts _ _ _ E3) as (_ & _ & _ & _ & _ & _ & Hinc & _).
@@ -398,7 +398,7 @@ Proof.
   { destruct (negb mk || (start r =? 0)); [apply (fa_grow_fits _ _ _ E1 Hf)|apply (fa_make_room_fits _ _ _ E1 Hf)]. }
   destruct g; try (inversion H; subst; exact Hf1).
   destruct (fa_fill ffuel r1) as [r2 fr] eqn:E2. pose proof (fa_fill_fits _ _ _ _ E2 Hf1) as Hf2.
-  destruct fr; try (inversion H; subst; exact Hf2).
+  destruct fr; [|inversion H; subst; unfold BufFits; fa_simpl; cbn [length]; lia|inversion H; subst; exact Hf2].
   destruct (fa_search r2) as [r3 sr] eqn:E3. pose proof (fa_search_fits _ _ _ E3 Hf2) as Hf3.
   destruct sr as [[|]|s]; try (inversion H; subst; exact Hf3).
   apply (IH _ _ _ H Hf3).
@@ -593,7 +593,8 @@ Proof.
   pose proof (fa_fill_fits _ _ _ _ E1 Hf0) as Hf1.
   destruct (fa_fill_run false _ _ _ _ E1) as (_ & _ & Hst & _).
   assert (Hn1 : st r1 <> FIncomplete) by (rewrite Hst; unfold r0; fa_simpl; discriminate).
-  destruct fr; inversion H; subst; (split; [exact Hf1|apply FullInc_not_incomplete]); try exact Hn1.
+  destruct fr; inversion H; subst;
+    (split; [first [exact Hf1|unfold BufFits; fa_simpl; cbn [length]; lia]|apply FullInc_not_incomplete]); try exact Hn1.
   fa_simpl. discriminate.
 Qed.
 
@@ -620,7 +621,7 @@ Fixpoint fa_resume_g (fuel ffuel : nat) (mk_room : bool) (r : fa) : fa * rres_b 
       | GOk =>
           let '(r2, fr) := fa_fill ffuel r1 in
           match fr with
-          | FillErr k => (set_st r2 FFinished, RsErr (FaIo k), gs)
+          | FillErr k => (set_st (set_buf r2 []) FFinished, RsErr (FaIo k), gs)
           | FillFuel => (r2, RsFuel, gs)
           | FillOk _ =>
               let '(r3, sr) := fa_search r2 in
